@@ -24,6 +24,12 @@ PROGS = [
     # non-ASCII results: 150 000 characters = 300 KB of UTF-8 (900 KB in the escaped default encoding) must not be recorded in full
     {"nodes": [{"k": "child", "uni": 150000, "body": [{"k": "step"}]}, {"k": "wait"}, {"k": "step"}]},
     {"nodes": [{"k": "child", "uni": 40000, "body": [{"k": "step"}]}, {"k": "wait"}, {"k": "step"}]},
+    # an oversized child context inside a branch that parks afterwards and is re-traversed IN-PROCESS (a sibling is still running): the
+    # summarised context is rebuilt from its recorded steps in the same invocation that recorded the summary
+    {"nodes": [{"k": "par", "branches": [[{"k": "child", "large": True, "body": [{"k": "step"}, {"k": "step"}]}, {"k": "wait", "s": 1}, {"k": "step"}],
+                                         [{"k": "step", "dur": 3.0}]]}, {"k": "wait"}, {"k": "step"}]},
+    {"nodes": [{"k": "map", "cfg": {"min": 1}, "branches": [[{"k": "child", "large": True, "body": [{"k": "step"}]}, {"k": "wait", "s": 1}, {"k": "step"}],
+                                                            [{"k": "step", "dur": 2.5}]]}, {"k": "step"}]},
     # early completion with max_concurrency below the branch count: some branches are never scheduled (no record at all) and are
     # reported as STARTED items; the rebuilt result must still list them
     {"nodes": [{"k": "map", "maxc": 1, "explicit_cfg": True, "large_items": [0, 1], "cfg": {"min": 2},
@@ -34,7 +40,7 @@ PROGS = [
 
 
 def run(ctx):
-    run_durable(ctx, model=["s08_large_child", "s09_large_final"], programs=PROGS, oracle_fns=[oracles.c16, oracles.c01_fn_only],
+    run_durable(ctx, model=["s08_large_child", "s09_large_final"], programs=PROGS, oracle_fns=[oracles.c16, oracles.c01_fn_only, oracles.c07],
                 n_random_progs=(0, 0), n_scen=(4, 12),
                 scen_kw={"crash": 0.5, "paging": 0.3, "faults": 0.0},
                 extra_rule="Sizes limit-1 / limit / limit+1 of the 256 KB checkpoint limit (run_in_child_context, nested, with and without a "
